@@ -72,5 +72,99 @@ pub open spec fn js_number_is(js: JsV, n: NumV) -> bool {
         //# J1-an-integer-up-to-2^53-or-a-float-is-seen-with-the-same-value
         (match v@ { NumV::I(i) => -9007199254740992 <= i <= 9007199254740992, NumV::U(_) => false, NumV::F(_) => true }) ==> js_number_is(ret@, v@),
 //@@ end
+// ---- JS -> JSON, Object arm of `impl FromJs for ActValue`
+pub enum JsonT { Null, Obj(Map<Seq<char>, JsonT>), Other(int) }
+#[verifier::external_body]
+pub struct JsonValue { _p: u8 }
+impl JsonValue { pub uninterp spec fn view(&self) -> JsonT; }
+#[verifier::external_body]
+pub struct JsonMap { _p: u8 }
+impl JsonMap {
+    pub uninterp spec fn view(&self) -> Map<Seq<char>, JsonT>;
+    #[verifier::external_body]
+    pub fn new() -> (r: Self) ensures r@ == Map::<Seq<char>, JsonT>::empty() { unimplemented!() }
+    #[verifier::external_body]
+    pub fn insert(&mut self, k: String, v: JsonValue) ensures final(self)@ == old(self)@.insert(k@, v@) { unimplemented!() }
+}
+// R7: `serde_json::Value::Object(value)`
+#[verifier::external_body]
+pub fn json_object(m: JsonMap) -> (r: JsonValue) ensures r@ == JsonT::Obj(m@) { unimplemented!() }
+pub struct JsError {}
+pub type JsResult<T> = std::result::Result<T, JsError>;
+// a JS object: its own enumerable string keys (in order) and members
+#[verifier::external_body]
+pub struct JsObject { _p: u8 }
+impl JsObject {
+    pub uninterp spec fn keys_spec(&self) -> Seq<Seq<char>>;
+    pub uninterp spec fn member(&self, k: Seq<char>) -> JsValue;
+    #[verifier::external_body]
+    pub fn new(ctx: Ctx) -> (r: JsResult<JsObject>) { unimplemented!() }
+}
+// the JSON image of a JS value (the result of ActValue::from_js: the function this arm belongs to; recursion = its own contract)
+pub uninterp spec fn json_of_js(v: JsValue) -> JsonT;
+pub uninterp spec fn js_obj_of(v: JsValue) -> JsObject;
+// R7: `v.as_object().unwrap_or(&inner)` for a value of type Object
+#[verifier::external_body]
+pub fn js_as_object<'a>(v: &'a JsValue, inner: &'a JsObject) -> (r: &'a JsObject) ensures *r == js_obj_of(*v) { unimplemented!() }
+// R7 (exact token match): `object.keys::<String>().filter_map(|v| v.ok()).collect::<Vec<_>>()` = the object's keys
+#[verifier::external_body]
+pub fn js_keys(o: &JsObject) -> (r: Vec<String>) ensures r@.map_values(|s: String| s@) == o.keys_spec(), o.keys_spec().no_duplicates() { unimplemented!() }
+// R7 (exact token match): `keys.iter().filter_map(|key| match object.get::<String, JsValue>(key.clone()) { Ok(value) => Ok((key, value)), Err(err) => Err(err) }.ok()).collect::<Vec<_>>()`
+// = every key with its member read as a JsValue (null and undefined members included: a JsValue read never drops them)
+#[verifier::external_body]
+pub fn js_members(o: &JsObject, keys: &Vec<String>) -> (r: Vec<(String, JsValue)>)
+    ensures r@.len() == keys@.len(), forall|i: int| 0 <= i < keys@.len() ==> (#[trigger] r@[i]).0@ == keys@[i]@ && r@[i].1 == o.member(keys@[i]@) { unimplemented!() }
+#[verifier::external_body]
+pub fn clone_string(s: &String) -> (r: String) ensures r@ == s@ { unimplemented!() }
+pub struct ActValue {}
+impl ActValue {
+    // the recursive call: ASSUMED to meet the contract of the whole function (result = JSON image of the JS value)
+    #[verifier::external_body]
+    pub fn from_js_value(ctx: &Ctx, v: JsValue) -> (r: JsResult<JsonValue>) ensures r is Ok ==> r->Ok_0@ == json_of_js(v) { unimplemented!() }
+}
+// oracle (statement): "a value returned or set by a script is stored unchanged": the JSON object has exactly the keys of the JS
+// object and under each key the JSON image of the member
+pub open spec fn object_image(o: JsObject, m: Map<Seq<char>, JsonT>) -> bool {
+    &&& forall|k: Seq<char>| m.dom().contains(k) <==> o.keys_spec().contains(k)
+    &&& forall|k: Seq<char>| o.keys_spec().contains(k) ==> #[trigger] m[k] == json_of_js(o.member(k))
+}
+
+//@@ extract file=acts/src/env/value.rs in="impl<'js> FromJs<'js> for ActValue" item="fn from_js" arm="rquickjs::Type::Object" name=ActValue::from_js::object sig="pub fn from_js_object(ctx: &Ctx, v: JsValue) -> JsResult<JsonValue>"
+//@@ opt rewrites=R1,R2,R3,R5,R13,R15
+//@@ rw R7 `serde_json :: Map :: < String , serde_json :: Value > :: new ( )` => `JsonMap::new()`
+//@@ rw R7 `v . as_object ( ) . unwrap_or ( & inner )` => `js_as_object(&v, &inner)`
+//@@ rw R7 `object . keys :: < String > ( ) . filter_map ( | v | v . ok ( ) ) . collect :: < Vec < _ > > ( )` => `js_keys(object)`
+//@@ rw R7 `keys . iter ( ) . filter_map ( | key | { match object . get :: < String , JsValue > ( key . clone ( ) ) { Ok ( value ) => Ok ( ( key , value ) ) , Err ( err ) => Err ( err ) , } . ok ( ) } ) . collect :: < Vec < _ > > ( )` => `js_members(object, &keys)`
+//@@ rw R7 `value . insert ( k . clone ( ) , ActValue :: from_js ( ctx , v ) ? . into ( ) )` => `value.insert(clone_string(k), ActValue::from_js_value(ctx, js_clone(v))?)`
+//@@ rw R7 `Ok ( serde_json :: Value :: Object ( value ) )` => `Ok(json_object(value))`
+//@@ spec
+    ensures
+        //# J2-an-object-returned-by-a-script-keeps-every-member
+        ret is Ok ==> exists|m: Map<Seq<char>, JsonT>| ret->Ok_0@ == JsonT::Obj(m) && #[trigger] object_image(js_obj_of(v), m),
+//@@ proof at=afterloop1
+                proof {
+                    let ks = object.keys_spec();
+                    let kv = keys@.map_values(|s: String| s@);
+                    assert forall|k: Seq<char>| value@.dom().contains(k) <==> ks.contains(k) by {
+                        if ks.contains(k) { let j = choose|j: int| 0 <= j < ks.len() && ks[j] == k; assert(kv[j] == keys@[j]@); }
+                        if value@.dom().contains(k) { let j = choose|j: int| 0 <= j < __i1 && #[trigger] keys@[j]@ == k; assert(kv[j] == keys@[j]@); assert(ks[j] == k); }
+                    }
+                    assert forall|k: Seq<char>| ks.contains(k) implies #[trigger] value@[k] == json_of_js(object.member(k)) by {
+                        let j = choose|j: int| 0 <= j < ks.len() && ks[j] == k; assert(kv[j] == keys@[j]@);
+                        assert(value@[keys@[j]@] == json_of_js(object.member(keys@[j]@)));
+                    }
+                    assert(object_image(js_obj_of(v), value@));
+                }
+//@@ loop 1
+        invariant
+            //# members-so-far
+            __v1@.len() == keys@.len() && keys@.map_values(|s: String| s@) == object.keys_spec() && object.keys_spec().no_duplicates() && *object == js_obj_of(v)
+                && (forall|i: int| 0 <= i < keys@.len() ==> (#[trigger] __v1@[i]).0@ == keys@[i]@ && __v1@[i].1 == object.member(keys@[i]@))
+                && (forall|k: Seq<char>| value@.dom().contains(k) <==> exists|j: int| 0 <= j < __i1 && #[trigger] keys@[j]@ == k)
+                && (forall|j: int| 0 <= j < __i1 ==> value@[(#[trigger] keys@[j])@] == json_of_js(object.member(keys@[j]@))),
+//@@ end
+// R15 iterates the member list by reference; the JsValue handle handed to the recursive call is the same value
+#[verifier::external_body]
+pub fn js_clone(v: &JsValue) -> (r: JsValue) ensures r == *v { unimplemented!() }
 } // verus!
 fn main() {}
